@@ -1,25 +1,43 @@
 import RawPanelVerif.Lemmas.TopoXform
 import RawPanelVerif.Lemmas.TopoJson
+import RawPanelVerif.Lemmas.TopoJsonText
 /-!
 # C14 — Topology transformations preserve the panel's meaning
 
 Property theorems only.  The statements are the executable predicates `Spec.Topo.checkRandomize`, `checkClean`,
 `checkRoundTrip` (Spec/TopologySpec.lean), which the check also evaluates on the implementation's before/after
 topologies.  `WF t` is the model's representation invariant (type index = finite map: keys strictly ascending;
-a nil flag only on an empty collection) and is preserved by every transformation (`*_keeps_wf`).
+a nil flag only on an empty collection); it is preserved by every transformation (`*_keeps_wf`) and holds of
+everything the JSON decoder returns (`fromJSON_wf`).
 
 Renumbering (`RandomizeTypes`), for **every** iteration order of the Go map (`order.Perm t.ti`) and every random stream:
 * `randomize_seq_holds`      sequential mode terminates (fuel 2 suffices for the collision loop) and satisfies every
                              clause: components unchanged up to the type number, number of types unchanged, resolved
-                             definition of every component unchanged (domain: every type 0 or indexed, 0 not a key),
-                             new ids exactly 1..n.
+                             definitions unchanged (whole-topology clause on the domain "every type 0 or indexed, 0 not a
+                             key" **and** the per-component clause without that guard), new ids exactly 1..n.
+* `component_clause`, `indexed_component_kept`  per component, no guard on the rest of the topology: a component whose
+                             type is indexed keeps its resolved definition (any mode, any stream — also one drawing 0);
+                             a type-0 component keeps it when 0 is a key neither before nor after.  What does change:
+                             `unindexed_component_counterexample` (a free number is handed to another type).
 * `randomize_random_holds`   random mode: whenever the collision loop ends within the fuel, the same clauses hold —
-                             under the hypothesis that the stream never yields 0 (see `random_zero_draw_counterexample`:
-                             `Intn(1000000)` can return 0, then "disabled" components acquire a type; p = 1e-6 per draw).
+                             under the hypothesis that the stream never yields 0 (`random_zero_draw_counterexample`).
+* `randomize_random_total`, `randomize_random_holds_total`  termination is not assumed: pairwise distinct draws never
+                             collide (one round of the loop), so the call returns and the clauses hold.
+* `randomize_random_fair`    more generally for every stream that keeps producing values outside any finite set
+                             (`Fair`): the call returns for some fuel and every larger one, and the clauses hold.
 * `seq_ids_are_1_to_n`, `resolved_unchanged`, `components_unchanged`, `type_count_unchanged` the clauses one by one.
 Section markers: `cleanSections_eq_filter` (no panic; result = filter (type ≠ marker), order kept; any number and
 position of markers), `clean_holds`.
-JSON (tree level, driven by the regenerated tag table): `json_roundtrip`, `json_fixpoint`, `roundtrip_holds`.
+Renumbering then section removal: `seq_then_clean` (fewer than 250 types: exactly the components with the *unindexed*
+marker number are removed, no ordinary component ever), `seq_then_clean_guard_exact` (with ≥ 250 types some indexed
+type receives the number 250 and its components would be removed), `indexed_marker_survives_counterexample`.
+JSON, tree level (driven by the regenerated tag table): `json_roundtrip` (parse ∘ serialise = identity up to Go equality:
+a negative-zero rotation is omitted and reads back as 0 — `Topology.norm`), `json_roundtrip_exact`, `fromJSON_wf`,
+`json_fixpoint` (for every topology parsed from **any** JSON tree: serialise → parse → serialise is stable),
+`json_fixpoint_wf`, `roundtrip_holds`.
+JSON, text level (`Model/TopoJsonText.lean`, compared byte for byte with `ToJSON()` by the `topo.jsonraw` records):
+`escape_roundtrip` (`unescape (escape s) = some s` for every byte string: quotes, backslashes, control bytes,
+`<`, `>`, `&`, U+2028/9).
 -/
 namespace RawPanelVerif.C14
 open RawPanelVerif RawPanelVerif.Topo
@@ -90,6 +108,28 @@ theorem resolved_unchanged_of (order : List (Nat × TypeDef)) (rnd : Nat → Nat
       rw [e1]
       simp only [hm2, hv]
 
+/-- the per-component clause of the Spec (`compKept`): every component whose type is indexed keeps its resolved
+definition — **no hypothesis on the rest of the topology** (other components may have unindexed types, the index may
+have an entry 0); a disabled component (type 0) keeps it when 0 is a type number neither before nor after -/
+theorem component_clause (order : List (Nat × TypeDef)) (rnd : Nat → Nat) (fuel : Nat) (sequence : Bool)
+    (t t' : Topology) (hs : Map.Sorted t.ti) (ho : order.Perm t.ti)
+    (hr : randomizeTypes order rnd fuel sequence t = some t') (h0 : Map.lookup t'.ti 0 = none) :
+    (t.hwc.zip t'.hwc).all (fun cc => Spec.Topo.compKept t t' cc.1 cc.2) = true := by
+  obtain ⟨st, hrk, rfl⟩ := randomize_some _ _ _ _ _ _ hr
+  exact compKept_all order st t (runKeys_RInv sequence rnd fuel order st (order_nodup t.ti order hs ho) hrk) ho h0
+
+/-- the same for one component, both modes, every stream (also one that yields 0): an indexed type is never lost -/
+theorem indexed_component_kept (order : List (Nat × TypeDef)) (rnd : Nat → Nat) (fuel : Nat) (sequence : Bool)
+    (t t' : Topology) (hs : Map.Sorted t.ti) (ho : order.Perm t.ti)
+    (hr : randomizeTypes order rnd fuel sequence t = some t') (k : Nat) (c : HWc) (hc : t.hwc[k]? = some c)
+    (hz : c.type ≠ 0) (hidx : (Spec.Topo.base t c.type).isSome) :
+    ∃ c', t'.hwc[k]? = some c' ∧ Spec.Topo.resolved t' c' = Spec.Topo.resolved t c := by
+  obtain ⟨st, hrk, rfl⟩ := randomize_some _ _ _ _ _ _ hr
+  obtain ⟨v, hv⟩ := Option.isSome_iff_exists.1 hidx
+  refine ⟨remapHWc st.typeMapping c, by simp [hc], ?_⟩
+  exact resolved_indexed_kept order st t
+    (runKeys_RInv sequence rnd fuel order st (order_nodup t.ti order hs ho) hrk) ho c hz v hv
+
 /-- sequential mode: total, and the new index has exactly the keys 1..n (in the model's canonical order) -/
 theorem seq_ids_are_1_to_n (order : List (Nat × TypeDef)) (rnd : Nat → Nat) (fuel : Nat) (hf : 2 ≤ fuel) (t : Topology) :
     ∃ t', randomizeTypes order rnd fuel true t = some t' ∧ Map.keys t'.ti = List.range' 1 order.length := by
@@ -121,7 +161,8 @@ theorem randomize_seq_holds (order : List (Nat × TypeDef)) (rnd : Nat → Nat) 
     have e2 : (Spec.Topo.keys t).length = order.length := by simp [Spec.Topo.keys, ho.length_eq]
     rw [List.contains_iff_mem, e, ← e2]
     exact hk
-  simp only [hres, hseq, Bool.false_eq_true, if_false, Bool.not_true, Bool.and_false]
+  have hcomp := component_clause _ _ _ _ _ _ hs ho hr h0
+  simp only [hres, hcomp, hseq, Bool.false_eq_true, if_false, Bool.not_true, Bool.and_false]
 
 /-- the collision loop in random mode only ever returns the initial candidate or a drawn value -/
 theorem collide_random_val (rnd : Nat → Nat) (new : Map TypeDef) (fuel m seq pos : Nat) (r : Nat × Nat × Nat)
@@ -176,7 +217,39 @@ theorem randomize_random_holds (order : List (Nat × TypeDef)) (rnd : Nat → Na
     cases hd : Spec.Topo.inDomain14 t with
     | false => rfl
     | true => simp [resolved_unchanged_of _ _ _ _ _ _ hs ho hd hr h0]
-  simp only [hres, Bool.false_eq_true, if_false, Bool.false_and]
+  have hcomp := component_clause _ _ _ _ _ _ hs ho hr h0
+  simp only [hres, hcomp, Bool.false_eq_true, if_false, Bool.false_and, Bool.not_true]
+
+/-- random mode terminates when the draws are pairwise distinct: the first candidate is always free, one round of
+the collision loop suffices -/
+theorem randomize_random_total (order : List (Nat × TypeDef)) (rnd : Nat → Nat) (fuel : Nat) (hf : 1 ≤ fuel)
+    (hinj : ∀ i j, rnd i = rnd j → i = j) (t : Topology) :
+    ∃ t', randomizeTypes order rnd fuel false t = some t' := by
+  obtain ⟨st, hr, _⟩ := runKeys_random_inj rnd hinj fuel hf order {} (DrawnInv.init rnd)
+  exact ⟨{ t with ti := st.newTypeStruct, tiNil := false, hwc := t.hwc.map (remapHWc st.typeMapping) },
+    by simp only [randomizeTypes, hr]⟩
+
+/-- random mode, no assumption that the call returns: distinct non-zero draws ⇒ it terminates and every clause holds -/
+theorem randomize_random_holds_total (order : List (Nat × TypeDef)) (rnd : Nat → Nat) (fuel : Nat) (hf : 1 ≤ fuel)
+    (hinj : ∀ i j, rnd i = rnd j → i = j) (hz : ∀ i, rnd i ≠ 0)
+    (t : Topology) (hs : Map.Sorted t.ti) (ho : order.Perm t.ti) :
+    ∃ t', randomizeTypes order rnd fuel false t = some t' ∧ Spec.Topo.checkRandomize false t t' = none := by
+  obtain ⟨t', hr⟩ := randomize_random_total order rnd fuel hf hinj t
+  exact ⟨t', hr, randomize_random_holds order rnd fuel hz t t' hs ho hr⟩
+
+/-- termination in general: if the stream keeps producing values outside every finite set (`Fair`; implied by
+pairwise distinct draws, `fair_of_injective`) the collision loops all end — for some fuel, and for every larger one —
+and, for streams without the value 0, every clause holds -/
+theorem randomize_random_fair (order : List (Nat × TypeDef)) (rnd : Nat → Nat) (hfair : Fair rnd) (hz : ∀ i, rnd i ≠ 0)
+    (t : Topology) (hs : Map.Sorted t.ti) (ho : order.Perm t.ti) :
+    ∃ fuel t', (∀ fuel', fuel ≤ fuel' → randomizeTypes order rnd fuel' false t = some t') ∧
+      Spec.Topo.checkRandomize false t t' = none := by
+  obtain ⟨fuel, st, hr⟩ := runKeys_fair rnd hfair order {}
+  have hrun : ∀ fuel', fuel ≤ fuel' → randomizeTypes order rnd fuel' false t
+      = some { t with ti := st.newTypeStruct, tiNil := false, hwc := t.hwc.map (remapHWc st.typeMapping) } := by
+    intro fuel' hle
+    simp only [randomizeTypes, runKeys_mono false rnd fuel fuel' hle order {} st hr]
+  exact ⟨fuel, _, hrun, randomize_random_holds order rnd fuel hz t _ hs ho (hrun fuel (Nat.le_refl _))⟩
 
 /-- the clause "resolved definition unchanged", both modes -/
 theorem resolved_unchanged (order : List (Nat × TypeDef)) (rnd : Nat → Nat) (fuel : Nat) (sequence : Bool)
@@ -218,21 +291,102 @@ theorem clean_keeps_wf (t t' : Topology) (hw : WF t) (h : cleanSections t = some
   cases h
   exact ⟨hw.1, fun h => by simp [hw.2.1 h], hw.2.2⟩
 
+/-! ## renumbering, then section removal -/
+
+/-- `CleanSections` after `RandomizeTypes(true)` on fewer types than the marker number (250): the components removed
+are exactly those that carried the marker number **and** whose marker number was not a type of the index — no
+ordinary component is ever deleted (its new number is one of 1..n < 250), and a marker whose number *was* indexed
+is renumbered like any type and stays (`indexed_marker_survives_counterexample`) -/
+theorem seq_then_clean (order : List (Nat × TypeDef)) (rnd : Nat → Nat) (fuel : Nat) (hf : 2 ≤ fuel) (t : Topology)
+    (hs : Map.Sorted t.ti) (ho : order.Perm t.ti) (hn : order.length < Gen.sectionType) :
+    ∃ t' t'', randomizeTypes order rnd fuel true t = some t' ∧ cleanSections t' = some t'' ∧
+      t''.hwc.map Spec.Topo.eraseType
+        = (t.hwc.filter (fun c => !(c.type == Gen.sectionType && (Spec.Topo.base t Gen.sectionType).isNone))).map
+            Spec.Topo.eraseType := by
+  obtain ⟨t', hr, hkeys⟩ := seq_ids_are_1_to_n order rnd fuel hf t
+  refine ⟨t', _, hr, cleanSections_eq_filter t', ?_⟩
+  obtain ⟨st, hrk, rfl⟩ := randomize_some _ _ _ _ _ _ hr
+  have hinv := runKeys_RInv true rnd fuel order st (order_nodup t.ti order hs ho) hrk
+  have hk : Map.keys st.newTypeStruct = List.range' 1 order.length := hkeys
+  simp only [List.filter_map, List.map_map]
+  have hf2 : (fun c : HWc => c.type != Gen.sectionType) ∘ remapHWc st.typeMapping
+      = fun c => !(c.type == Gen.sectionType && (Spec.Topo.base t Gen.sectionType).isNone) := by
+    funext c
+    have := seq_marker_iff order st t hinv hk ho hn c
+    simp only [Function.comp]
+    by_cases hm : (remapHWc st.typeMapping c).type = Gen.sectionType
+    · obtain ⟨h1, h2⟩ := this.1 hm
+      simp [hm, h1, h2]
+    · have hnot : ¬ (c.type = Gen.sectionType ∧ Spec.Topo.base t Gen.sectionType = none) := fun h => hm (this.2 h)
+      have e1 : ((remapHWc st.typeMapping c).type != Gen.sectionType) = true := by simp [hm]
+      rw [e1]
+      by_cases hc : c.type = Gen.sectionType
+      · have : Spec.Topo.base t Gen.sectionType ≠ none := fun h => hnot ⟨hc, h⟩
+        cases hb : Spec.Topo.base t Gen.sectionType with
+        | none => exact absurd hb this
+        | some v => simp [hc]
+      · simp [hc]
+  rw [hf2]
+  apply List.map_congr_left
+  intro c _
+  exact eraseType_remap _ c
+
+/-- the guard `fewer than 250 types` is needed: with 250 or more types sequential renumbering hands the number 250
+to an indexed type, and a following `CleanSections` deletes every component of that (ordinary) type -/
+theorem seq_then_clean_guard_exact (order : List (Nat × TypeDef)) (rnd : Nat → Nat) (fuel : Nat) (hf : 2 ≤ fuel)
+    (t : Topology) (hs : Map.Sorted t.ti) (ho : order.Perm t.ti) (hn : Gen.sectionType ≤ order.length) :
+    ∃ t' k, randomizeTypes order rnd fuel true t = some t' ∧ (Spec.Topo.base t k).isSome ∧
+      ∀ (i : Nat) (c : HWc), t.hwc[i]? = some c → c.type = k → k ≠ 0 →
+        ∃ c' : HWc, t'.hwc[i]? = some c' ∧ c'.type = Gen.sectionType := by
+  obtain ⟨t', hr, hkeys⟩ := seq_ids_are_1_to_n order rnd fuel hf t
+  obtain ⟨st, hrk, rfl⟩ := randomize_some _ _ _ _ _ _ hr
+  have hinv := runKeys_RInv true rnd fuel order st (order_nodup t.ti order hs ho) hrk
+  obtain ⟨k, hk1, hk2⟩ := seq_marker_handed_out order st hinv hkeys hn
+  refine ⟨_, k, hr, ?_, ?_⟩
+  · rw [← lookup_eq_base, Map.lookup_isSome_iff]
+    exact ((ho.map (·.1)).mem_iff).1 hk1
+  · intro i c hc hck hz
+    exact ⟨remapHWc st.typeMapping c, by simp [hc], hk2 c hck hz⟩
+
 /-! ## JSON -/
 
-theorem json_roundtrip (t : Topology) (hw : WF t) : fromJSON (toJSON t) = some t := topology_rt t hw
+/-- parsing the serialised topology gives the topology back — as Go compares it: the `float32` rotation by value
+(a negative zero is not written, `omitempty`, and so reads back as `0`) -/
+theorem json_roundtrip (t : Topology) (hw : WF t) : fromJSON (toJSON t) = some t.norm := topology_rt t hw
 
-theorem json_fixpoint (t t' : Topology) (hw : WF t) (h : fromJSON (toJSON t) = some t') :
+/-- … literally the same topology when it carries no negative-zero / non-canonical zero token -/
+theorem json_roundtrip_exact (t : Topology) (hw : WF t) (hn : t.norm = t) : fromJSON (toJSON t) = some t := by
+  rw [json_roundtrip t hw, hn]
+
+/-- the decoder only ever returns well-formed topologies (from **any** JSON tree) -/
+theorem fromJSON_wf (j : JVal) (t : Topology) (h : fromJSON j = some t) : WF t := fromJSON_WF j t h
+
+/-- serialisation is a fixpoint after one round, for every topology that was parsed from *some* JSON tree `j`
+(not necessarily one the encoder wrote): serialise, parse, serialise again — same JSON; and the parsed value is
+stable from then on -/
+theorem json_fixpoint (j : JVal) (t : Topology) (h : fromJSON j = some t) :
+    ∃ t', fromJSON (toJSON t) = some t' ∧ toJSON t' = toJSON t ∧ serialise t' = serialise t ∧
+      fromJSON (toJSON t') = some t' := by
+  have hw := fromJSON_wf j t h
+  refine ⟨t.norm, json_roundtrip t hw, toJSON_norm t, by simp only [serialise, toJSON_norm], ?_⟩
+  rw [json_roundtrip t.norm (norm_wf t hw), norm_norm]
+
+/-- the same for any well-formed model topology -/
+theorem json_fixpoint_wf (t t' : Topology) (hw : WF t) (h : fromJSON (toJSON t) = some t') :
     toJSON t' = toJSON t ∧ serialise t' = serialise t := by
   rw [json_roundtrip t hw] at h
   cases h
-  exact ⟨rfl, rfl⟩
+  exact ⟨toJSON_norm t, by simp only [serialise, toJSON_norm]⟩
 
 theorem roundtrip_holds (t : Topology) (hw : WF t) :
     Spec.Topo.checkRoundTrip t (serialise t) (fromJSON (toJSON t))
       (match fromJSON (toJSON t) with | some t' => serialise t' | none => []) = none := by
   rw [json_roundtrip t hw]
-  simp [Spec.Topo.checkRoundTrip]
+  simp [Spec.Topo.checkRoundTrip, norm_norm, serialise, toJSON_norm]
+
+/-- the text layer's string escaping (`encoding/json`, HTML escaping on) loses nothing: reading the escaped body
+back gives the bytes — quotes, backslashes, control bytes, `<`, `>`, `&`, U+2028/U+2029 included -/
+theorem escape_roundtrip (s : Str) : unescape (escape s) = some s := unescape_escape s
 
 /-! ## non-vacuity and pinned behaviour -/
 
@@ -262,6 +416,44 @@ example : Spec.Topo.checkClean exT { exT with hwc := exT.hwc.drop 1 } = some "cl
 example : Spec.Topo.checkRandomize true exT { exT with ti := [(1, d1), (2, d2), (4, d3)] } = some "resolved" := by decide
 example : Spec.Topo.checkRandomize true exT { exT with ti := [(7, d1), (10, d2), (250, d3)] } = some "seqids" := by decide
 example : fromJSON (toJSON exT) = some exT := by decide
+example : exT.norm = exT := by decide
+/-- a negative zero is read back as zero; the Spec's equality (Go `==`) accepts it, literal equality would not -/
+example : fromJSON (toJSON { ti := [(1, { rotate := [45, 48] })] }) = some { ti := [(1, {})] } := by decide
+example : Spec.Topo.checkRoundTrip { ti := [(1, { rotate := [45, 48] })] } [] (some { ti := [(1, {})] }) [] = none := by decide
+example : Spec.Topo.checkRoundTrip { ti := [(1, { rotate := [57] })] } [] (some { ti := [(1, {})] }) [] = some "json.roundtrip" := by decide
+example : escape (bytesOf "a\"<b>&\\\n") = bytesOf "a\\\"\\u003cb\\u003e\\u0026\\\\\\n" := by decide
+example : escape [0xE2, 0x80, 0xA8, 0x7F, 0x1F, 0xC3, 0xA6] = bytesOf "\\u2028" ++ [0x7F] ++ bytesOf "\\u001f" ++ [0xC3, 0xA6] := by decide
+example : renderText (.obj [([97], .arr [.num [49], .str [60]]), ([98], .null)]) = bytesOf "{\"a\":[1,\"\\u003c\"],\"b\":null}" := by decide
+/-- a random stream with pairwise distinct, non-zero draws -/
+example : (∀ i j : Nat, (fun i => i + 1) i = (fun i => i + 1) j → i = j) ∧ ∀ i : Nat, (fun i => i + 1) i ≠ 0 :=
+  ⟨fun i j h => by simpa using h, fun i => by simp⟩
+example : (randomizeTypes exT.ti (fun i => i + 1) 1 false exT).map (fun t => t.ti.map (·.1)) = some [1, 2, 3] := by decide
+example : Fair (fun i => i + 1) := fair_of_injective _ (fun i j h => by simpa using h)
+/-- a stream that is not injective but fair: 4,4,9,4,4,1, then 7,8,9,… -/
+example : (randomizeTypes [(10, d2), (7, d1), (250, d3)] (fun i => [4, 4, 9, 4, 4, 1].getD i (i + 1)) 3 false exT).isSome = true := by decide
+/-- the decoder sorts out any key order / duplicates of a hand-written JSON tree: the result is a finite map -/
+example : (fromJSON (.obj [(bytesOf "typeIndex", .obj [(bytesOf "5", .obj []), (bytesOf "3", .obj []), (bytesOf "5", .null)])])).map
+    (fun t => t.ti.map (·.1)) = some [3, 5] := by decide
+example : ∃ t, fromJSON (toJSON exT) = some t := ⟨_, json_roundtrip exT (by
+  refine ⟨?_, by decide, by decide⟩
+  simp [Map.Sorted, Map.keys, exT])⟩
+/-- the guard of `seq_then_clean_guard_exact` is satisfiable: an index of 250 types -/
+example : Gen.sectionType ≤ ((List.range 250).map (fun (i : Nat) => (i + 1, ({ w := (i : Int) } : TypeDef)))).length := by simp [Gen.sectionType]
+/-- renumbering then section removal on `exT` (3 types; 250 is indexed): the markers get the id 1 and stay -/
+theorem indexed_marker_survives_counterexample :
+    ((randomizeTypes [(250, d3), (7, d1), (10, d2)] (fun _ => 5) 2 true exT).bind cleanSections).map (fun t => t.hwc.map (·.id))
+      = some [1, 2, 3, 4, 5, 6, 7] := by decide
+/-- … while unindexed markers are removed as before -/
+example : ((randomizeTypes [(7, d1), (10, d2)] (fun _ => 5) 2 true { exT with ti := [(7, d1), (10, d2)] }).bind cleanSections).map
+    (fun t => t.hwc.map (·.id)) = some [2, 3, 6] := by decide
+/-- what does change for a component whose type is *not* indexed: type 2 is free before, and is handed to `d2` -/
+theorem unindexed_component_counterexample :
+    let t : Topology := { ti := [(7, d1), (10, d2)], hwc := [{ id := 1, type := 2 }, { id := 2, type := 7 }] }
+    ∃ t', randomizeTypes t.ti (fun _ => 5) 2 true t = some t' ∧ Spec.Topo.checkRandomize true t t' = none ∧
+      t'.hwc.map (Spec.Topo.resolved t') ≠ t.hwc.map (Spec.Topo.resolved t) ∧
+      (t'.hwc.map (Spec.Topo.resolved t'))[1]? = (t.hwc.map (Spec.Topo.resolved t))[1]? := by
+  refine ⟨_, rfl, ?_⟩
+  decide
 example : fromJSON (toJSON { exT with ti := [(10, d2), (7, d1)] }) ≠ some { exT with ti := [(10, d2), (7, d1)] } := by decide
 
 /-- `RandomizeTypes(false)` draws ids with `Intn(1000000)`, which can be 0: a component of type 0 ("disabled",
